@@ -40,7 +40,7 @@ def swarm_weights(r: random.Random, families=None, always=()):
 def gen_history(seed: int, *, n_events, families=None, always=(), start=None, fault_rate=0.0,
                 src_fault_rate=0.0, ckpt=0.12, reopen=0.05, restart=0.03, observe=0.03, jump=0.02,
                 fork=0.01, every_event_ckpt=False, forms=("stream", "stream", "path", "dir"),
-                op_filter=None, held_rate=None):
+                op_filter=None, held_rate=None, warmup=True):
     """Return (events, swarm description)."""
     S = Streams(seed)
     r_ops, r_sched, r_faults, r_clock = S("ops"), S("sched"), S("faults"), S("clock")
@@ -49,14 +49,33 @@ def gen_history(seed: int, *, n_events, families=None, always=(), start=None, fa
         pairs = [(n, w_) for n, w_ in zip(names, weights) if op_filter(n)]
         names, weights = [p[0] for p in pairs], [p[1] for p in pairs]
     events = []
+
+    def dt():
+        return round(r_clock.expovariate(1 / 30.0), 3)
+
     last_creates = False
     last_ckpt = False
     ndecks = 1
     n_sink_writes = 300
 
-    def dt():
-        return round(r_clock.expovariate(1 / 30.0), 3)
-
+    if warmup:
+        r_w = S("warmup")
+        for _ in range(r_w.choice([1, 1, 2, 3])):
+            events.append({"op": "add_slide", "layout": r_w.choice([0, 1, 1, 5, 6, 8, r_w.randint(0, 10)]), "dt": dt()})
+        kit = {"text": ["add_textbox", "add_shape"], "dml": ["add_shape"], "geometry": ["add_shape", "add_connector"],
+               "actions": ["add_textbox"], "tables": ["add_table"], "charts": ["add_chart"], "media": ["add_picture"],
+               "shapes": ["add_group", "add_connector"]}
+        for fam in enabled:
+            for name in kit.get(fam, []):
+                if r_w.random() < 0.8:
+                    ev = opsmod.gen_op_event(r_w, name)
+                    ev.pop("group", None)
+                    ev["held"] = False
+                    if name == "add_textbox" and ev.get("text") is None:
+                        ev["text"] = "warm\nup"
+                    ev["dt"] = dt()
+                    events.append(ev)
+        n_events += len(events)
     while len(events) < n_events:
         k = r_sched.random()
         p_ck = ckpt * (3 if last_creates else 1) + (0.2 if last_ckpt else 0)
